@@ -217,7 +217,6 @@ TABLE = {
         ("C09_relative_index", "Proofs_Support.rel_from_abs_spec"),
         ("C09_absolute_index", "Proofs_Support.abs_from_rel_spec"),
         ("C09_eval_total", "Proofs_Eval.seval_total"),
-        ("C09_sites_covered", "Proofs_Sites.sites_covered"),
     ]),
     "C10": ("objects are always valid: class invariants survive every history", "", [
         ("C10_init", "Proofs_Pool.inv_init"),
